@@ -12,6 +12,18 @@ const (
 	defaultValidationTimeout  = 2 * time.Second
 )
 
+// validationTimeout bounds the read of one background validation. Like the
+// heartbeat's refresh time-out it grows with the configured heartbeat
+// interval: a store that answers within half a heartbeat interval is
+// responsive by the library's own standard, and two slow but successful reads
+// must not cost a leader with a long interval its term.
+func (e *kvElection) validationTimeout() time.Duration {
+	if t := e.cfg.HeartbeatInterval / 2; t > defaultValidationTimeout {
+		return t
+	}
+	return defaultValidationTimeout
+}
+
 // validationLoop periodically validates the fencing token.
 // If validation fails, the leader is demoted.
 func (e *kvElection) validationLoop(ctx context.Context) {
@@ -38,7 +50,7 @@ func (e *kvElection) validationLoop(ctx context.Context) {
 				return
 			}
 
-			validationCtx, cancel := context.WithTimeout(ctx, defaultValidationTimeout)
+			validationCtx, cancel := context.WithTimeout(ctx, e.validationTimeout())
 			isValid, err := e.validateToken(validationCtx)
 			cancel()
 
